@@ -18,8 +18,8 @@ GO = '/opt/veriftools/go1.26.8/bin/go'
 ENV = dict(os.environ, GOFLAGS='-mod=mod', GOPROXY='off', GOSUMDB='off', GOTOOLCHAIN='local')
 ROOT = '/verif'
 OUT = ROOT + '/.work/mut'
-SCR = '/tmp/mut'
-SRC = SCR + '/src'  # pristine snapshot of /repo's working tree, taken once
+SCR = os.environ.get('MUT_SCR', '/tmp/mut')
+SRC = '/tmp/mut/src'  # pristine snapshot of /repo's working tree, taken once
 ORDER = ['C07', 'C15', 'C12', 'C17', 'C08', 'C18', 'C09', 'C14', 'C16', 'C10', 'C05', 'C11', 'C19', 'C01', 'C02', 'C06', 'C03']
 ORDER_X = ['C13', 'C04', 'C20']
 
